@@ -130,7 +130,7 @@ def run_consensus(ck, tags, oracle, tier, ntrees_quick=6, ntrees_thorough=40, ex
             seen_par = set()
 
             def offer(par, env):
-                cases = mutators.mutants(tg, par, rng, tags=tags, horizon_env=env if env.hz >= 0 else None)
+                cases = mutators.mutants(tg, par, rng, tags=tags, horizon_env=env if env.hz >= 0 else None, with_warm=True)
                 if extra_cases:
                     cases += extra_cases(tg, par, rng)
                 for c in cases:
@@ -138,6 +138,7 @@ def run_consensus(ck, tags, oracle, tier, ntrees_quick=6, ntrees_thorough=40, ex
                     if c.get('warm') is not None:
                         # the same in-memory objects were validated once before (pool admission, an earlier offer)
                         impl_verdict(cs, c['warm'], c['now'])
+                        blk = c['mutate']()
                     with model.Transcript() as tr:
                         v, new = impl_verdict(cs, blk, c['now'])
                         for m in order:
